@@ -71,7 +71,7 @@ fn literal_inputs() -> Vec<String> {
     v
 }
 
-const HEAVY: [(&str, &str); 14] = [
+const HEAVY: [(&str, &str); 18] = [
     ("cartesian_match", "MATCH (a), (b), (c), (d), (e), (f), (g), (h) RETURN count(*) AS c"),
     ("cartesian_unwind", "UNWIND range(1, 100000) AS a UNWIND range(1, 100000) AS b RETURN count(*) AS c"),
     ("varlen_bounded", "MATCH (a)-[*1..30]-(b) RETURN count(*) AS c"),
@@ -87,6 +87,10 @@ const HEAVY: [(&str, &str); 14] = [
     ("expr:nested_comprehension", "RETURN size([x IN range(1, 100000) | [y IN range(1, 100000) | x + y]]) AS c"),
     ("expr:nested_quantifier", "RETURN all(x IN range(1, 100000) WHERE all(y IN range(1, 100000) WHERE x + y > 0)) AS c"),
     ("expr:nested_reduce", "RETURN reduce(a = 0, x IN range(1, 100000) | a + reduce(b = 0, y IN range(1, 100000) | b + y)) AS c"),
+    ("expr:filter_comprehension_in_filter", "RETURN size([x IN range(1, 100000) WHERE size([y IN range(1, 100000) WHERE y = x]) > 0]) AS c"),
+    ("expr:none_in_single", "RETURN single(x IN range(1, 100000) WHERE none(y IN range(1, 100000) WHERE y = x)) AS c"),
+    ("expr:reduce_in_comprehension_per_row", "UNWIND range(1, 1000) AS r RETURN [x IN range(1, 100000) | reduce(a = 0, y IN range(1, 1000) | a + y)][0] AS c"),
+    ("expr:comprehension_in_where", "MATCH (n) WHERE size([x IN range(1, 100000) | [y IN range(1, 100000) | y]]) > 0 RETURN count(n) AS c"),
 ];
 
 fn heavy_inputs() -> Vec<String> {
@@ -276,12 +280,12 @@ pub fn c16(tier: Tier) -> i32 {
     let rep = Report::new("C16", tier);
     let thorough = tier == Tier::Thorough;
     unsafe { std::env::set_var("VERIF_TIER", tier.name()) };
-    rep.rule("input families, ALL enumerated, each batch prepared and executed in a child process with a 2 GiB address-space limit, the default 8 MiB stack and CPU / wall caps: (a) every sequence of up to 3 (thorough 4) tokens over a 30-token alphabet; (b) every byte string of length <= 2 (thorough: a 1/16 slice of length 3) and every string up to length 4 over 13 special characters (quotes, escapes, NUL, U+FFFD, U+202E); (c) 18 nesting families x depth in {1, 10, 100, 1000, 10^4 (, 10^5)}, on the main thread (8 MiB stack) and on a default Rust thread (2 MiB stack); (d) numeric / temporal / range boundary literals and function arguments; (e) the first 2000 queries of the C11 grammar and the C12 update statements on a plain, a compacted and an edge-free compacted graph; (f) 14 'heavy single operator / single expression' queries with soft_timeout_ms = 50: CPU time must stay below 5 s; oracle: the child reports rows or an error for every input - never a panic, an abort, a signal, or an ignored timeout; non-trivial = inputs processed");
+    rep.rule("input families, ALL enumerated, each batch prepared and executed in a child process with a 2 GiB address-space limit, the default 8 MiB stack and CPU / wall caps: (a) every sequence of up to 3 (thorough 4) tokens over a 30-token alphabet; (b) every byte string of length <= 2 (thorough: a 1/16 slice of length 3) and every string up to length 4 over 13 special characters (quotes, escapes, NUL, U+FFFD, U+202E); (c) 18 nesting families x depth in {1, 10, 100, 1000, 10^4 (, 10^5)}, on the main thread (8 MiB stack) and on a default Rust thread (2 MiB stack); (d) numeric / temporal / range boundary literals and function arguments; (e) the first 2000 queries of the C11 grammar and the C12 update statements on a plain, a compacted and an edge-free compacted graph; (f) 18 'heavy single operator / single expression' queries with soft_timeout_ms = 50: CPU time must stay below 5 s; oracle: the child reports rows or an error for every input - never a panic, an abort, a signal, or an ignored timeout; non-trivial = inputs processed");
     let families: Vec<(&str, u64)> = vec![("tokens", 4000), ("bytes", 8000), ("special", 4000), ("nesting", 1), ("nesting_thread", 1), ("literals", 20), ("heavy", 1), ("corpus", 500), ("corpus_compacted", 500), ("corpus_edge_free", 500)];
     let mut fam_report = Vec::new();
     for (f, chunk) in families {
         let total = family_size(f, thorough);
-        let (bad, crashes, done) = child::sweep("C16", f, total, chunk, if f == "heavy" { 20 } else if f.starts_with("nesting") { 120 } else { 600 });
+        let (bad, crashes, done) = child::sweep("C16", f, total, chunk, if f == "heavy" { 30 } else if f.starts_with("nesting") { 120 } else { 600 });
         rep.add_states(done);
         rep.add_transitions(done);
         rep.add_traces(done);
